@@ -389,6 +389,25 @@ def random_module(rng: random.Random, max_claims=6, with_imports=True, syms=SYMS
                 tags.add('direct_instantiate_pattern_plain_dict')
         except AssertionError:
             pass
+    if rng.random() < 0.1:
+        # the same kind of direct step, with the optional parameters of the interpreter API passed BY KEYWORD (every interpreter has to
+        # take them: a wrapper that forwards only positional arguments builds another pattern or raises)
+        try:
+            x_ = rng.choice((0, 1)); k_ = rng.choice((1, 2))
+            s_ = P.Symbol(rng.choice(syms))
+            base = rng.choice((prop.imp_refl(), mod.prop1()))
+            plug = P.Implies(s_, P.MetaVar(k_, e_fresh=(P.EVar(x_),)))
+
+            def by_keyword(interpreter, s_=s_, k_=k_, x_=x_, base=base):
+                left = interpreter.symbol(name=s_.name)
+                right = interpreter.metavar(k_, e_fresh=(P.EVar(x_),))
+                node = interpreter.implies(left=left, right=right)
+                return interpreter.instantiate(proved=base(interpreter), delta={0: node})
+            if admissible_inst(base.conc, {0: plug}):
+                add(PR.ProofThunk(by_keyword, base.conc.instantiate({0: plug})), f'inst(schema, 0 := {plug}) through keyword calls on the interpreter')
+                tags.add('direct_keyword_calls')
+        except AssertionError:
+            pass
     if rng.random() < 0.15:
         # a plug that IS a notation node listing its parameters out of order (what filling the open parameter of a partial application
         # leaves behind): dynamic_inst hands such plugs to the interpreter and keeps what it gets back
@@ -622,6 +641,26 @@ def many_axioms_module(rng: random.Random) -> Built:
         mod.add_proof_expression(th)
         pool.append((th, f'load_axiom(#{i} of {n})'))
     return Built(mod, {'many_axioms', 'claims>=2' if len(picks) >= 2 else 'single_claim'}, [f'{n} axioms of shape {shape}; claims: axioms {picks}'], pool)
+
+
+def repeated_constraint_module(rng: random.Random) -> Built:
+    """Metavariables whose constraint lists name one variable twice (legal: the lists are read as sets by the machine; every entry is
+    written out): one axiom, claimed and proved by loading it, plus an instance of it."""
+    PR = repo.mod('proof')
+    P = repo.P()
+    x = P.EVar(rng.choice((0, 1, 2))); X = P.SVar(rng.choice((0, 1)))
+    kind = rng.choice(('e_fresh', 's_fresh', 'positive', 'negative'))
+    lst = {'e_fresh': (x, x), 's_fresh': (X, X), 'positive': (X, X), 'negative': (X, X)}[kind]
+    if rng.random() < 0.5:
+        other = P.EVar((x.name + 1) % 3) if kind == 'e_fresh' else P.SVar((X.name + 1) % 2)
+        lst = rng.choice(((lst[0], other, lst[0]), (other, lst[0], lst[0])))
+    m = P.MetaVar(rng.choice((0, 1)), **{kind: lst})
+    A = rng.choice((P.Implies(m, P.MetaVar(2)), P.Implies(P.App(P.Symbol('f'), m), m), P.App(m, P.Symbol('a'))))
+    mod = PR.ProofExp(axioms=[A])
+    th = mod.load_axiom(A)
+    mod.add_claim(A)
+    mod.add_proof_expression(th)
+    return Built(mod, {'repeated_constraint_entry'}, [f'axiom {A} with {kind}={lst}'], [(th, 'load_axiom')])
 
 
 def tautology_module(rng: random.Random) -> Built:
